@@ -99,22 +99,23 @@ func genC20(r *Rand, tier string, i int) *h.Scenario {
 				if d.Style%3 == 0 {
 					d.Fmt = []string{"", "%f", "%.2f", "%.0f", "%e", "%g"}[r.Intn(6)]
 				} else {
-					d.Fmt = []string{"", "%d", "% d", "%.1f", "% .2f", "%f", "%e", "%g"}[r.Intn(8)]
+					d.Fmt = []string{"", "%d", "% d", "%.1f", "% .2f", "%f", "%e", "%g", "%8d", "%-8d", "%08d", "%-08d", "%-010.1f", "%12.2f"}[r.Intn(14)]
 				}
 			case h.DecCounters:
 				if d.Style%3 == 0 {
 					d.Fmt = []string{"", "%d / %d", "%d of %d"}[r.Intn(3)]
 				} else {
-					d.Fmt = []string{"", "%d / %d", "% d / % d", "%.1f / %.1f", "% .2f / % .2f", "%f / %f"}[r.Intn(6)]
+					d.Fmt = []string{"", "%d / %d", "% d / % d", "%.1f / %.1f", "% .2f / % .2f", "%f / %f", "%8d / %-8d", "%-08d / %08d", "%-09.1f / %9.1f"}[r.Intn(9)]
 				}
 			case h.DecTotal, h.DecCurrent, h.DecInvCurrent:
 				if d.Style%3 == 0 {
-					d.Fmt = []string{"", "%d"}[r.Intn(2)]
+					d.Fmt = []string{"", "%d", "%8d", "%-08d"}[r.Intn(4)]
 				} else {
-					d.Fmt = []string{"", "%d", "% d", "%.1f", "% .2f", "%f", "%e", "%g"}[r.Intn(8)]
+					// (the size types print through fmt.Formatter: width and the '-', '0' flags are part of "any flag")
+					d.Fmt = []string{"", "%d", "% d", "%.1f", "% .2f", "%f", "%e", "%g", "%8d", "%-8d", "%08d", "%-08d", "%-010.1f", "%12.2f"}[r.Intn(14)]
 				}
 			case h.DecPercentage:
-				d.Fmt = []string{"", "%d", "% d", "%.1f", "% .2f", "%f", "%e", "%g"}[r.Intn(8)]
+				d.Fmt = []string{"", "%d", "% d", "%.1f", "% .2f", "%f", "%e", "%g", "%6d", "%-06d", "%06d", "%-08.1f"}[r.Intn(12)]
 			}
 			if (d.Kind == h.DecElapsed || d.Kind == h.DecAvgSpeed || d.Kind == h.DecAvgETA) && r.Bool(0.25) {
 				// a resumed task: the decorator is told that it started a while ago
